@@ -4,13 +4,13 @@ from fractions import Fraction as F
 from sim.chart import Cfg, swarm, gen_spec
 from sim.engine import Result, Abandon, fp
 from sim.probes import SimClock, SkewClock
-from sim.semrun import Sim, TICK, legal_or_abandon
+from sim.semrun import Sim, TICK, legal_or_abandon, materialise
 from sim.checks import common
 
 ID = 'C13'
 LEVEL = 'exploration'
 BUDGET = {'quick': 20, 'thorough': 240}
-STREAM_ORDER = ['ops', 'guards', 'chart', 'cfg']
+STREAM_ORDER = ['ops', 'guards', 'mat', 'chart', 'cfg']
 RULE = ('well-formed chart drawn per run whose guards are P.tguard(i, event, after(d), idle(d2), time), whose states carry invariants '
         'P.tcond(j, after(d), idle(d2), time) and whose entry/exit/action code logs the `time` variable; contract checking is on. The '
         'interpreter clock is a SkewClock (a larger value at every read) in half of the runs and a SimClock moved from inside probe calls '
@@ -36,7 +36,7 @@ def run(ch, tier):
     skew = cs.flag(1, 2)
     sp = gen_spec(ch.s('chart'), cfg)
     clock = SkewClock() if skew else SimClock()
-    sim = Sim(sp, clock=clock, ignore_contract=False)
+    sim = Sim(sp, clock=clock, ignore_contract=False, statechart=materialise(sp, ch, res))
     moves = [0]
     if not skew:
         mv = ch.s('moves')
@@ -48,7 +48,8 @@ def run(ch, tier):
                 clock.advance(d)
         sim.P.on_probe = on_probe
     started = []
-    sim.it.attach(lambda me: started.append(me.time) if me.name == 'step started' else None)
+    during = []
+    sim.it.attach(lambda me: (started.append(me.time), during.append(sim.it.time)) if me.name == 'step started' else None)
     cfp = fp(sp.fingerprint())
     ops = ch.s('ops')
     gs = ch.s('guards')
@@ -90,6 +91,8 @@ def run(ch, tier):
             return res.fail('step-time', 'Interpreter.time is %r after a step called when the clock showed %r' % (sim.it.time, float(T)), **ctx)
         if r.ms is not None and F(r.ms.time) != T:
             return res.fail('step-time', 'MacroStep.time is %r for a step called when the clock showed %r' % (r.ms.time, float(T)), **ctx)
+        if [F(x) for x in during[-1:]] != [T]:
+            return res.fail('step-time', "Interpreter.time was %r while 'step started' was being dispatched, the step time is %r" % (during[-1:], float(T)), **ctx)
         if [F(x) for x in started] != [T]:
             return res.fail('step-time', "'step started' meta-events carried time %r, step time is %r" % (started, float(T)), **ctx)
         # stamps valid while the guards / invariants of this step are evaluated
